@@ -203,11 +203,14 @@ func oneToyRun(c *Ctx, r *Rng, iters int) {
 		start[i] = r.Bool()
 	}
 	m.setFlags(start)
+	checkND := r.Bool()
 	ex := suppapitnarm.New().WithCoolant(coolant)
 	ex.SetLogHandler(loggers.NewNullLogger())
+	rec := &suppaRecorder{}
+	ex.AddObserverAsFirst(rec)
 	ex.SetModel(m)
 	if e := ex.SetParameters(parameters.Map{"StartingTemperature": t0, "CoolingFactor": cf, "InitialReturnToBaseStep": initialStep,
-		"MinimumReturnToBaseRate": minRate, "ReturnToBaseAdjustmentFactor": rtbFactor}); e != nil {
+		"MinimumReturnToBaseRate": minRate, "ReturnToBaseAdjustmentFactor": rtbFactor, "CheckNonDominance": checkND}); e != nil {
 		c.Fail("harness:parameters", "suppascript:parameters-rejected", e.Error(), nil)
 		return
 	}
@@ -228,6 +231,9 @@ func oneToyRun(c *Ctx, r *Rng, iters int) {
 	}
 	clean := func(b []bool) string { return strings.ReplaceAll(bitsStr(b), "-", "") }
 	fmt.Fprintf(&sb, " %s %s", clean(cur.flags()), clean(pot.flags()))
+	if checkND {
+		sb.WriteString(" cnd")
+	}
 	state := func() string {
 		var s strings.Builder
 		fmt.Fprintf(&s, "cd=%d last=%d it=%d cur=%s", ex.VerifCountdown(), ex.VerifLastReturnedToBase(), ex.VerifCurrentIteration(), clean(cur.flags()))
@@ -241,6 +247,7 @@ func oneToyRun(c *Ctx, r *Rng, iters int) {
 	c.Op("reset", "ok")
 	c.Op(sb.String(), "ok "+state())
 	c.Stat(fmt.Sprintf("toy run kind=%s d=%d n-bucket=%d", kind, d, bucket(n)))
+	c.Stat(fmt.Sprintf("toy run CheckNonDominance=%v", checkND))
 
 	refCountdown, refStep := uint64(float64(initialStep)), float64(initialStep)
 	comp := marchive.ModelCompressor{}
@@ -278,8 +285,17 @@ func oneToyRun(c *Ctx, r *Rng, iters int) {
 		case 1:
 			uNum = 1<<53 - 1
 		}
+		aim := r.Intn(4) == 0
+		aimed := false
 		coolSrc.log = nil
-		coolSrc.next = func() uint64 { return uNum }
+		coolSrc.next = func() uint64 {
+			if aim {
+				if v, ok := aimedDraw(r, ex.VerifCoolant().AcceptanceProbability()); ok {
+					uNum, aimed = v, true
+				}
+			}
+			return uNum
+		}
 		pick := r.Intn(1 << 16)
 		archSrc.log = nil
 		archSrc.next = func() int {
@@ -291,6 +307,8 @@ func oneToyRun(c *Ctx, r *Rng, iters int) {
 		}
 		iterNo := ex.VerifCurrentIteration()
 		tBefore := ex.VerifCoolant().Temperature()
+		archBefore := append([]*marchive.CompressedModelState(nil), ex.VerifArchive().Archive()...)
+		rec.events = nil
 		if p := protect(func() { ex.TryRandomChange() }); p != "" {
 			c.Op("iter-panicked", "panic")
 			c.Fail("no-panic", "suppascript:iteration-panic", p, nil)
@@ -300,12 +318,8 @@ func oneToyRun(c *Ctx, r *Rng, iters int) {
 		diffs := cand.VariableDifferences(before)
 		res := ex.VerifArchiveResult()
 		moved, desirable := ex.VerifChangeAccepted(), ex.VerifChangeIsDesirable()
-		forced := res == marchive.StoredForcingDominatingStateRemoval
-		code := resCode(res)
-		if forced {
-			code = "RD"
-		}
 		returned := ex.VerifLastReturnedToBase() == iterNo
+		code, forced := checkIterationReport(c, readIteration(rec.events), res, desirable, moved, returned, comp.Compress(cur).Encoding(), iterNo)
 		probStr := "-"
 		if !desirable {
 			probStr = approxFmt(ex.VerifCoolant().AcceptanceProbability())
@@ -315,16 +329,20 @@ func oneToyRun(c *Ctx, r *Rng, iters int) {
 			pickEff = archSrc.log[0]
 		}
 		var ob strings.Builder
-		fmt.Fprintf(&ob, "iter %s %d %d", floatBits(unitOf(uNum)), pickEff, len(diffs))
-		for _, dd := range diffs {
-			ob.WriteByte(' ')
-			ob.WriteString(floatBits(dd))
-		}
+		fmt.Fprintf(&ob, "iter %s %d", floatBits(unitOf(uNum)), pickEff)
 		for _, b := range candBits {
 			ob.WriteByte(' ')
 			ob.WriteString(b2s(b))
 		}
-		c.Op(ob.String(), fmt.Sprintf("%s %s %s %s %s %s %s", code, b2s(desirable), b2s(moved), b2s(forced), b2s(returned), probStr, state()))
+		c.Op(ob.String(), fmt.Sprintf("%s %s %s %s %s %s %s %s", code, b2s(desirable), b2s(moved), b2s(forced), b2s(returned), probStr, diffsStr(diffs), state()))
+		if len(diffs) != d {
+			c.Fail("C06:change-per-objective", "suppa:changes-not-per-objective", fmt.Sprintf("%d changes for %d objectives", len(diffs), d), nil)
+		}
+		for k := range diffs {
+			if diffs[k] != cand.Variables[k]-before.Variables[k] {
+				c.Fail("C06:change-per-objective", "suppa:change-not-candidate-minus-current", fmt.Sprintf("objective %d: %v != %v - %v", k, diffs[k], cand.Variables[k], before.Variables[k]), nil)
+			}
+		}
 
 		// direct clauses (as in suppa-runs)
 		u := unitOf(uNum)
@@ -335,26 +353,43 @@ func oneToyRun(c *Ctx, r *Rng, iters int) {
 			c.Fail("C06:desirable-moves", "suppa:desirable-not-moved", "candidate stored / already held but the explorer did not move to it", nil)
 		}
 		if !desirable {
-			p := 1.0
-			if kind == "averaged" {
-				p = 0
-				for _, dd := range diffs {
-					p += math.Exp(-math.Abs(dd) / tBefore)
-				}
-				p /= float64(len(diffs))
-			} else {
-				for _, dd := range diffs {
-					p *= math.Exp(-math.Abs(dd) / tBefore)
-				}
-			}
-			if math.Abs(p-u) > 1e-9 && moved != (p > u) {
-				c.Fail("C06:undesirable-iff-probability-exceeds-draw", "suppa:metropolis-rule-wrong", fmt.Sprintf("p=%v u=%v moved=%v diffs=%v T=%v", p, u, moved, diffs, tBefore), nil)
+			checkMetropolis(c, kind == "averaged", diffs, tBefore, ex.VerifCoolant().AcceptanceProbability(), u, moved)
+			if aimed {
+				c.Stat(fmt.Sprintf("toy draw aimed near p: moved=%v", moved))
 			}
 			if moved != forced {
 				c.Fail("C06:accepted-undesirable-is-forced", "suppa:accepted-not-forced", fmt.Sprintf("moved=%v forced=%v", moved, forced), nil)
 			}
 		}
 		archNow := ex.VerifArchive().Archive()
+		// "already holds its action set => moves with certainty": evaluated on the set's CONTENTS before the offer
+		held := false
+		for _, a := range archBefore {
+			if bitsStr(stateBits(a)) == bitsStr(stateBits(cand)) {
+				held = true
+			}
+		}
+		if held && (!moved || forced || code != "RU") {
+			c.Fail("C06:held-action-set-moves", "suppa:held-action-set-not-certain", fmt.Sprintf("iteration %d: the set held the candidate's action set, verdict %s moved=%v forced=%v", iterNo, code, moved, forced), nil)
+		}
+		if forced {
+			var want []*marchive.CompressedModelState
+			for _, a := range archBefore {
+				if !refDominates([]float64(a.Variables), []float64(cand.Variables)) {
+					want = append(want, a)
+				}
+			}
+			ok := len(archNow) == len(want)+1
+			for k := 0; ok && k < len(want); k++ {
+				ok = archNow[k] == want[k]
+			}
+			if !ok || bitsStr(stateBits(archNow[len(archNow)-1])) != bitsStr(stateBits(cand)) {
+				c.Fail("C05:force-evicts-exactly-dominators", "suppa:wrong-forced-eviction", fmt.Sprintf("iteration %d: %d members before, %d after, %d survivors expected", iterNo, len(archBefore), len(archNow), len(want)), nil)
+			}
+		}
+		if len(archNow) == 0 {
+			c.Fail("C06:solution-set-non-empty", "suppa:archive-empty-after-iteration", fmt.Sprintf("iteration %d", iterNo), nil)
+		}
 		for i, a := range archNow {
 			for j, b := range archNow {
 				if i != j && refDominates([]float64(a.Variables), []float64(b.Variables)) {
@@ -399,4 +434,5 @@ func oneToyRun(c *Ctx, r *Rng, iters int) {
 		ex.CoolDown()
 		c.Op("cool", floatBits(ex.VerifCoolant().Temperature()))
 	}
+	checkReportedArchive(c, ex)
 }
